@@ -1,5 +1,3 @@
-//go:build verif
-
 // Package c20net binds spec/netsync to the real P2P server: a real network.Server (NewServer + Start, loopback listener on an
 // ephemeral port, no seeds, no discovery, consensus off) on a real core.Blockchain, and harness-side FAKE PEERS that speak the
 // wire protocol over real TCP connections with the public message / payload types only.  Nothing of server.go / tcp_peer.go is
@@ -40,7 +38,6 @@ func (l *evlog) emit(ev map[string]any) {
 	l.mu.Unlock()
 }
 
-// locked runs f while holding the log (used to log-and-write atomically with respect to other log entries of this peer).
 func (l *evlog) snapshot() []map[string]any {
 	l.mu.Lock()
 	defer l.mu.Unlock()
@@ -116,7 +113,9 @@ func versionMsg(magic netmode.Magic, nonce uint32, height uint32, fullNode bool)
 	return network.NewMessage(network.CMDVersion, payload.NewVersion(magic, nonce, "/verif-fake-peer/", caps))
 }
 
-func verackMsg() *network.Message { return network.NewMessage(network.CMDVerack, payload.NewNullPayload()) }
+func verackMsg() *network.Message {
+	return network.NewMessage(network.CMDVerack, payload.NewNullPayload())
+}
 
 func pingMsg(height, nonce uint32) *network.Message {
 	return network.NewMessage(network.CMDPing, payload.NewPing(height, nonce))
